@@ -475,13 +475,16 @@ fn push_mut(w: &mut CaseWriter, kind: &str, fmt: &str, op: &str, a: u64, b: u64)
     w.push(kind, vec![fmt.into(), op.into(), a.to_string(), b.to_string()]);
 }
 
-fn gen_mutations(rng: &mut Rng, thorough: bool, w: &mut CaseWriter, kind: &str, fmt: &str, key: &str) {
+fn gen_mutations(rng: &mut Rng, thorough: bool, div: u64, w: &mut CaseWriter, kind: &str, fmt: &str, key: &str) {
+    let q = |x: u64| (x / div).max(1);
     let p = base(key);
     let n = p.len() as u64;
     if n == 0 {
         return;
     }
-    push_mut(w, kind, fmt, "id", 0, 0);
+    if div == 1 {
+        push_mut(w, kind, fmt, "id", 0, 0);
+    }
     let text = is_text(fmt);
     // (a) single-byte substitutions
     if thorough && n <= 1600 && fmt != "vcfgz" {
@@ -493,7 +496,7 @@ fn gen_mutations(rng: &mut Rng, thorough: bool, w: &mut CaseWriter, kind: &str, 
             }
         }
     } else {
-        let npos = if thorough { 1200 } else { 140 };
+        let npos = q(if thorough { 1200 } else { 140 });
         for _ in 0..npos {
             let pos = rng.below(n);
             let cur = p[pos as usize];
@@ -516,7 +519,7 @@ fn gen_mutations(rng: &mut Rng, thorough: bool, w: &mut CaseWriter, kind: &str, 
         let offs: Vec<u64> = if thorough && n <= 4000 {
             (0..n).collect()
         } else {
-            (0..(if thorough { 1500 } else { 120 })).map(|_| rng.below(n)).collect()
+            (0..q(if thorough { 1500 } else { 120 })).map(|_| rng.below(n)).collect()
         };
         for &o in &offs {
             let full = thorough || rng.chance(1, 3);
@@ -552,13 +555,13 @@ fn gen_mutations(rng: &mut Rng, thorough: bool, w: &mut CaseWriter, kind: &str, 
                 }
             }
         } else {
-            for _ in 0..260 {
+            for _ in 0..q(260) {
                 push_mut(w, kind, fmt, "tok", rng.below(nt.max(1)), rng.below(HOSTILE_TOKENS.len() as u64));
             }
         }
     }
     // deletions, insertions, duplications
-    let nd = if thorough { 1500 } else { 90 };
+    let nd = q(if thorough { 1500 } else { 90 });
     for _ in 0..nd {
         let pos = rng.below(n);
         match rng.below(4) {
@@ -569,29 +572,39 @@ fn gen_mutations(rng: &mut Rng, thorough: bool, w: &mut CaseWriter, kind: &str, 
         }
     }
     // (c) truncations
-    if thorough || n <= 300 {
+    if div == 1 && (thorough || n <= 300) {
         for l in 0..n {
             push_mut(w, kind, fmt, "trunc", l, 0);
         }
     } else {
-        for _ in 0..100 {
+        for _ in 0..q(100) {
             push_mut(w, kind, fmt, "trunc", rng.below(n), 0);
         }
-        for l in n.saturating_sub(12)..n {
+        for l in n.saturating_sub(if div == 1 { 12 } else { 0 })..n {
             push_mut(w, kind, fmt, "trunc", l, 0);
         }
     }
 }
 
+/// The bulk of both tiers is a FIXED sweep (its generator state does not depend on VERIF_SEED), so
+/// that which panic sites a run reaches does not depend on the seed; the seed only drives a
+/// smaller extra random sample appended to it.
 fn generate(rng: &mut Rng, tier: &str, w: &mut CaseWriter) {
     let thorough = tier == "thorough";
+    let mut fixed = Rng::new(0x00C1_5C15);
+    gen_all(&mut fixed, thorough, 1, w);
+    gen_all(rng, false, 4, w);
+}
+
+fn gen_all(rng: &mut Rng, thorough: bool, div: u64, w: &mut CaseWriter) {
+    let q = |x: u64| (x / div).max(1);
     // modelled kinds -------------------------------------------------------------------------
     {
         let mut push = |lens: &[u64], k: u64, upos: u64, how: u64| {
             let l = if lens.is_empty() { "_".to_string() } else { lens.iter().map(|x| x.to_string()).collect::<Vec<_>>().join(",") };
             w.push("dref", vec![l, k.to_string(), upos.to_string(), how.to_string()])
         };
-        for lens in [&[][..], &[0], &[5], &[5, 0], &[0, 5, 0], &[5, 7], &[65280, 1], &[1, 0, 0, 3]] {
+        for lens in [&[][..], &[0], &[5], &[5, 0], &[0, 5, 0], &[5, 7], &[65280, 1], &[1, 0, 0, 3]].into_iter().take(if div == 1 { 8 } else { 0 }) {
             for k in 0..=lens.len() as u64 {
                 for upos in [0u64, 1, 2, 4, 5, 6, 7, 8, 65279, 65280, 65281, 65535] {
                     for how in 0..2 {
@@ -600,7 +613,7 @@ fn generate(rng: &mut Rng, tier: &str, w: &mut CaseWriter) {
                 }
             }
         }
-        for _ in 0..(if thorough { 3000 } else { 250 }) {
+        for _ in 0..q(if thorough { 3000 } else { 250 }) {
             let n = rng.below(5) as usize;
             let lens: Vec<u64> = (0..n)
                 .map(|_| match rng.below(4) {
@@ -625,7 +638,7 @@ fn generate(rng: &mut Rng, tier: &str, w: &mut CaseWriter) {
         let mut push = |ms: u64, d: u64, id: u64, s: u64, e: u64| {
             w.push("csiq", vec![ms.to_string(), d.to_string(), id.to_string(), s.to_string(), e.to_string()])
         };
-        for ms in [0u64, 1, 2, 14, 31, 33, 34, 36, 37, 40, 60, 61, 62, 63, 64, 200, 255] {
+        for ms in [0u64, 1, 2, 14, 31, 33, 34, 36, 37, 40, 60, 61, 62, 63, 64, 200, 255].into_iter().take(if div == 1 { 17 } else { 0 }) {
             for d in [0u64, 1, 2, 5, 9, 10, 11, 16, 20, 21, 30, 85, 255] {
                 for id in [0u64, 1, 8, 9] {
                     push(ms, d, id, 1, 1);
@@ -633,7 +646,7 @@ fn generate(rng: &mut Rng, tier: &str, w: &mut CaseWriter) {
                 push(ms, d, 4681, 1, 2);
             }
         }
-        let n = if thorough { 6000 } else { 500 };
+        let n = q(if thorough { 6000 } else { 500 });
         for _ in 0..n {
             let d = *rng.pick(&[0u64, 1, 2, 3, 4, 5, 5, 5, 6, 7, 8, 9, 10, 11, 12]);
             let ms = match rng.below(4) {
@@ -662,12 +675,14 @@ fn generate(rng: &mut Rng, tier: &str, w: &mut CaseWriter) {
                 2 => maxp.saturating_add(1),
                 _ => s.saturating_add(rng.below(maxp)).min(maxp),
             };
+            // keep the number of bins a query has to set bounded for deep geometries
+            let e = if d >= 8 { e.min(s.saturating_add((1u64 << ms.min(40)) * 50_000)) } else { e };
             push(ms, d, id, s, e.max(s));
         }
     }
     {
         // rANS 4x8 order-0 frequency tables in the on-disk syntax: sym f {sym f | sym' len f*len}* 0
-        let n = if thorough { 6000 } else { 500 };
+        let n = q(if thorough { 6000 } else { 500 });
         for i in 0..n {
             let mut t: Vec<u8> = Vec::new();
             let freq = |rng: &mut Rng| -> u32 {
@@ -738,24 +753,24 @@ fn generate(rng: &mut Rng, tier: &str, w: &mut CaseWriter) {
     }
     // L3 mutation engine ---------------------------------------------------------------------
     for fmt in c15_decode::FORMATS {
-        gen_mutations(rng, thorough, w, "mut", fmt, fmt);
+        gen_mutations(rng, thorough, div, w, "mut", fmt, fmt);
     }
     for kind in ["bai", "bamcsi", "vcftbi"] {
-        gen_mutations(rng, thorough && kind == "bai", w, "iq", kind, &format!("iq-{kind}"));
+        gen_mutations(rng, thorough && kind == "bai", div, w, "iq", kind, &format!("iq-{kind}"));
     }
     // BGZF seeks
     {
         let file = base("bgzf");
         let n = file.len() as u64;
         let starts = block_starts(&file);
-        for &c in &starts {
+        for &c in starts.iter().take(if div == 1 { usize::MAX } else { 0 }) {
             for u in [0u64, 1, 119, 120, 121, 200, 65279, 65280, 65535] {
                 for how in 0..4 {
                     w.push("seek", vec![c.to_string(), u.to_string(), how.to_string()]);
                 }
             }
         }
-        for _ in 0..(if thorough { 3000 } else { 200 }) {
+        for _ in 0..q(if thorough { 3000 } else { 200 }) {
             let c = if rng.chance(1, 2) { *rng.pick(&starts) } else { rng.below(n + 30) };
             w.push("seek", vec![c.to_string(), rng.below(65536).to_string(), rng.below(4).to_string()]);
         }
@@ -765,7 +780,9 @@ fn generate(rng: &mut Rng, tier: &str, w: &mut CaseWriter) {
         let key = format!("codec-{name}");
         let p = base(&key);
         let n = p.len() as u64;
-        push_mut(w, "cmut", name, "id", 0, 0);
+        if div == 1 {
+            push_mut(w, "cmut", name, "id", 0, 0);
+        }
         if thorough && n <= 400 {
             for pos in 0..n {
                 for val in 0..=255u64 {
@@ -775,7 +792,7 @@ fn generate(rng: &mut Rng, tier: &str, w: &mut CaseWriter) {
                 }
             }
         } else {
-            for _ in 0..(if thorough { 8000 } else { 500 }) {
+            for _ in 0..q(if thorough { 8000 } else { 500 }) {
                 let pos = rng.below(n);
                 let cur = p[pos as usize];
                 let val = match rng.below(4) {
@@ -789,10 +806,10 @@ fn generate(rng: &mut Rng, tier: &str, w: &mut CaseWriter) {
                 }
             }
         }
-        for l in 0..n {
+        for l in 0..(if div == 1 { n } else { 0 }) {
             push_mut(w, "cmut", name, "trunc", l, 0);
         }
-        for _ in 0..(if thorough { 400 } else { 40 }) {
+        for _ in 0..q(if thorough { 400 } else { 40 }) {
             let o = rng.below(n);
             push_mut(w, "cmut", name, "u32", o, *rng.pick(U32_VALUES));
             push_mut(w, "cmut", name, "u16", o, *rng.pick(U16_VALUES));
@@ -800,7 +817,7 @@ fn generate(rng: &mut Rng, tier: &str, w: &mut CaseWriter) {
             push_mut(w, "cmut", name, "ins", o, rng.below(256));
         }
         // arbitrary bytes
-        for i in 0..(if thorough { 1500 } else { 120 }) {
+        for i in 0..q(if thorough { 1500 } else { 120 }) {
             let len = match rng.below(4) {
                 0 => rng.below(8),
                 1 => rng.below(40),
